@@ -861,7 +861,11 @@ class ReadParquetPyarrowFS(ReadParquet):
     def _get_lengths(self):
         # TODO: Filters that only filter partition_expr can be used as well
         if not self.filters:
-            return tuple(stats["num_rows"] for stats in self.aggregated_statistics)
+            stats = self.aggregated_statistics
+            if self._fragment_sort_index() is not None:
+                # partitions follow the divisions, not the file listing
+                stats = [stats[i] for i in self._fragment_sort_index()]
+            return tuple(stats[i]["num_rows"] for i in self._partitions)
 
     @cached_property
     def _dataset_info(self):
